@@ -295,6 +295,8 @@ def run_fullstack(case):
             pid = os.fork()
             if pid == 0:
                 try:
+                    from sim.common import die_with_parent
+                    die_with_parent()
                     _fullstack_child(case, inc, dict(spec, inp=inp), rundir, outpath)
                 finally:
                     os._exit(99)
